@@ -47,6 +47,7 @@ pub fn rust_ty(t: &Ty, decls: &mut Vec<String>) -> String {
                     n.clone()
                 }
                 KeyTy::I64 => "i64".into(),
+                KeyTy::SpannedI64 => "toml::Spanned<i64>".into(),
                 KeyTy::Bool => "bool".into(),
                 KeyTy::Char => "char".into(),
             };
